@@ -474,3 +474,34 @@ func flush() {
 		}
 	}
 }
+
+// Enumerate runs a property over an explicit, finite list of cases (no random generation); used
+// for exhaustive sweeps of small spaces. It stops at the first failing case.
+func Enumerate[C any](t *testing.T, p Prop[C], next func() (C, bool)) int {
+	pend := openPending(p.ID, p.Subject)
+	defer pend.done()
+	coll.mu.Lock()
+	coll.id = p.ID
+	coll.get(p.Subject)
+	coll.mu.Unlock()
+	n := 0
+	for {
+		c, ok := next()
+		if !ok {
+			return n
+		}
+		n++
+		pend.set(p.ID, p.Subject, c)
+		o := p.exec(c)
+		coll.record(p.Subject, c, o)
+		if o.Fail != "" {
+			path := p.replayPath()
+			writeReplay(path, p.ID, p.Subject, o.Fail, c)
+			coll.mu.Lock()
+			coll.failures = append(coll.failures, failure{Subject: p.Subject, Replay: path, Msg: o.Fail})
+			coll.mu.Unlock()
+			t.Errorf("%s %s: %s", p.ID, p.Subject, o.Fail)
+			return n
+		}
+	}
+}
